@@ -1286,6 +1286,11 @@ func (it *Interp) convert(v Value, from, to types.Type) Value {
 			return v
 		}
 	}
+	if c, ok := v.(int64); ok && fok { // string(rune) / string(byte) of a concrete value
+		if b, ok := to.Underlying().(*types.Basic); ok && b.Info()&types.IsString != 0 {
+			return conc(string(rune(c)))
+		}
+	}
 	if types.Identical(from.Underlying(), to.Underlying()) {
 		return v
 	}
